@@ -63,6 +63,8 @@ class SBytes:
             return x
         if isinstance(x, (bytes, bytearray)):
             return SBytes._norm_list(list(x))
+        if isinstance(x, str) or getattr(x, "_sstr_", False):
+            raise TypeError("a bytes-like object is required, not 'str'")     # what every bytes method says
         raise Unsupported("SBytes operand %r" % type(x))
 
     def is_concrete(self):
@@ -254,11 +256,18 @@ class SBytes:
         tab[old[0]] = new[0]
         return self.translate(bytes(tab))
 
-    def translate(self, table):
+    def translate(self, table, delete=b""):
         from .sym import STable
+        src = self.b
+        if delete:
+            # bytes.translate(table, delete): the bytes of `delete` are dropped first (forks on undecided membership)
+            dl = list(bytes(delete))
+            src = [x for x in src if not sym.elem_in(x if isinstance(x, int) else SInt(x, 8), dl)]
+        if table is None:
+            return _norm(SBytes(src))
         t = table if isinstance(table, STable) else STable(list(table), "translate", 8)
         out = []
-        for x in self.b:
+        for x in src:
             out.append(t.values[x] if isinstance(x, int) else t[SInt(x, 8)])
         return _norm(SBytes(out))
 
@@ -444,9 +453,10 @@ class SStr:
         return SStr(self.c * k, self.wd * k)
 
     def __getitem__(self, i):
+        # a fully concrete piece is handed out as a real str (it then works with every str API, hashing, `in "..."`)
         if isinstance(i, slice):
-            return SStr(self.c[i], self.wd[i])
-        return SStr([self.c[i]], [self.wd[i]])
+            return _norms(SStr(self.c[i], self.wd[i]))
+        return _norms(SStr([self.c[i]], [self.wd[i]]))
 
     def __iter__(self):
         return (self[i] for i in range(len(self.c)))
